@@ -142,6 +142,98 @@ static int gw_end(char *msg, size_t n) {
     return 0;
 }
 
+/* ---------------- E3: trace mode (thousands of keys: the table grows and is rehashed) ---------------- */
+#define TV 6000
+static val_t TVv[TV + 1];
+static int tdead[TV + 1], ntdead;
+static void tdtor(void *p) { tdead[ntdead++] = ((val_t *)p)->id; }
+static FILE *TF;
+static long tr_events;
+static char rmkeys[1 << 16];
+static int tr_rm_mod, tr_rm_res, tr_calls, tr_bad;
+static int tr_iter_cb(void *up, const char *key, void *value) {
+    tr_calls++;
+    int idx = atoi(key + 1);
+    if (tr_rm_mod && idx % tr_rm_mod == tr_rm_res) {
+        size_t k = strlen(rmkeys);
+        snprintf(rmkeys + k, sizeof rmkeys - k, "%s\"%s\"", k ? "," : "", key);
+        char copy[32]; snprintf(copy, sizeof copy, "%s", key);
+        m_map_remove(M, copy);
+    }
+    return 0;
+}
+static void tr_log(const char *a, const char *k, int v, const char *obs, const char *extra) {
+    fprintf(TF, "{\"a\":\"%s\",\"k\":\"%s\",\"v\":%d,\"obs\":[%s],\"len\":%ld,\"dead\":[", a, k ? k : "", v, obs, (long)m_map_len(M));
+    for (int i = 0; i < ntdead; i++) fprintf(TF, "%s%d", i ? "," : "", tdead[i]);
+    fprintf(TF, "]%s}\n", extra ? extra : "");
+    ntdead = 0;
+    tr_events++;
+}
+static int trace_main(const char *out, unsigned seed, int nkeys, long nops) {
+    TF = fopen(out, "w");
+    if (!TF) return 2;
+    for (int i = 0; i <= TV; i++) TVv[i].id = i;
+    srand(seed);
+    M = m_map_new((dup_keys ? M_MAP_KEY_DUP : 0) | (allow_update ? M_MAP_VAL_ALLOW_UPDATE : 0), has_dtor ? tdtor : NULL);
+    int nextv = 1;
+    char key[32], obs[64];
+    static char keys[4096][12];
+    for (int i = 0; i < nkeys && i < 4096; i++) snprintf(keys[i], sizeof keys[i], "k%d", i);
+    for (long op = 0; op < nops && nextv < TV - 2; op++) {
+        int r = rand() % 100;
+        int ki = (op < nkeys * 2 && r < 55) ? (int)(op / 2 % nkeys) : rand() % nkeys;   /* first fill the table up (growth), then churn */
+        snprintf(key, sizeof key, "%s", keys[ki]);
+        if (r < 55) {
+            void *cur = m_map_get(M, key);
+            int v = (cur && rand() % 4 == 0) ? ((val_t *)cur)->id : nextv++;        /* sometimes re-put the very same value object */
+            int ret = m_map_put(M, dup_keys ? key : keys[ki], &TVv[v]);
+            snprintf(obs, sizeof obs, "%d", ret < 0 ? -1 : ret);
+            tr_log("Put", key, v, obs, NULL);
+        } else if (r < 70) {
+            void *g = m_map_get(M, key);
+            snprintf(obs, sizeof obs, "%d", g ? ((val_t *)g)->id : 0);
+            tr_log("Get", key, 0, obs, NULL);
+        } else if (r < 75) {
+            snprintf(obs, sizeof obs, "%d", (int)m_map_contains(M, key));
+            tr_log("Contains", key, 0, obs, NULL);
+        } else if (r < 92) {
+            int ret = m_map_remove(M, key);
+            snprintf(obs, sizeof obs, "%d", ret < 0 ? -1 : ret);
+            tr_log("Remove", key, 0, obs, NULL);
+        } else if (r < 95 && m_map_len(M) > 0) {
+            /* callback iteration removing the keys whose number is = res (mod mod) */
+            tr_rm_mod = 2 + rand() % 5; tr_rm_res = rand() % tr_rm_mod; tr_calls = 0; rmkeys[0] = 0;
+            long before = m_map_len(M);
+            int ret = m_map_iterate(M, tr_iter_cb, NULL);
+            snprintf(obs, sizeof obs, "%d,%d,%d", ret < 0 ? -1 : 0, tr_calls, tr_calls == before);
+            static char extra[(1 << 16) + 32];
+            snprintf(extra, sizeof extra, ",\"rm\":[%s]", rmkeys);
+            tr_log("IterateRm", "", 0, obs, extra);
+        } else if (r < 98) {
+            /* iterator sweep, removing some of the entries */
+            m_map_itr_t *itr = m_map_itr_new(M);
+            tr_log("ItrNew", itr ? m_map_itr_get_key(itr) : "", 0, itr ? "1" : "0", NULL);
+            while (itr) {
+                void *d = m_map_itr_get_data(itr);
+                snprintf(obs, sizeof obs, "%d", d ? ((val_t *)d)->id : 0);
+                tr_log("ItrGet", "", 0, obs, NULL);
+                if (rand() % 3 == 0) { m_map_itr_remove(itr); tr_log("ItrRemove", "", 0, "0", NULL); }
+                m_map_itr_next(&itr);
+                tr_log("ItrNext", itr ? m_map_itr_get_key(itr) : "", 0, "0", NULL);
+            }
+        } else if (rand() % 4 == 0) {
+            m_map_clear(M);
+            tr_log("Clear", "", 0, "0", NULL);
+        }
+    }
+    m_map_clear(M);
+    tr_log("Clear", "", 0, "0", NULL);
+    m_map_free(&M);
+    fclose(TF);
+    printf("TRACE {\"events\": %ld, \"outstanding\": %ld, \"values\": %d}\n", tr_events, vp_outstanding, nextv);
+    return 0;
+}
+
 int main(int argc, char **argv) {
     has_dtor = getenv("VP_DTOR") && atoi(getenv("VP_DTOR"));
     allow_update = getenv("VP_UPDATE") && atoi(getenv("VP_UPDATE"));
@@ -150,5 +242,6 @@ int main(int argc, char **argv) {
     for (int i = 0; i <= NV; i++) V[i].id = i;
     setup_keys();
     vp_alloc_install();
+    if (argc >= 6 && !strcmp(argv[1], "--trace")) return trace_main(argv[2], (unsigned)atoi(argv[3]), atoi(argv[4]), atol(argv[5]));
     return gw_main(argc, argv);
 }
